@@ -24,6 +24,8 @@ type CExpr struct {
 	ast       ast.Expr
 	Line      int
 	GhostOnly string // clause about this ghost only: skipped for loops that never update it
+	Global    bool   // "requires global E": E is an invariant of package-level state that holds whenever no
+	// writer of that state is running: assumed at entry, not an obligation of the callers
 }
 
 type Contract struct {
@@ -430,11 +432,16 @@ func parseContractFile(path string, extra ...string) (*ContractFile, error) {
 			if m[2] != "" {
 				props = strings.FieldsFunc(strings.Trim(m[2], "[]"), func(r rune) bool { return r == ',' || r == ' ' })
 			}
+			isGlobal := false
+			if m[1] == "requires" && strings.HasPrefix(m[3], "global ") {
+				isGlobal = true
+				m[3] = strings.TrimSpace(m[3][len("global "):])
+			}
 			e, err := parseCExpr(m[3])
 			if err != nil {
 				return nil, fmt.Errorf("line %d: %v in %q", ln, err, m[3])
 			}
-			ce := &CExpr{Text: m[3], Props: props, ast: e, Line: ln}
+			ce := &CExpr{Text: m[3], Props: props, ast: e, Line: ln, Global: isGlobal}
 			switch m[1] {
 			case "requires":
 				cur.Requires = append(cur.Requires, ce)
@@ -1645,6 +1652,13 @@ func (fx *FnExec) evalCallC(x *ast.CallExpr, env *evalEnv) (cval, error) {
 				}
 				args = append(args, v.S)
 				sorts = append(sorts, v.Sort)
+			}
+			if pf[1] == "S_reflect_Value" {
+				// make sure the datatype is declared even when the function at hand never
+				// touches a reflect.Value itself (the name comes from a callee's contract)
+				if t := fx.W.typeByName("reflect.Value"); t != nil {
+					fx.sortOf(t)
+				}
 			}
 			fx.declareFun(fn.Name, sorts, pf[1])
 			rv := cval{S: "(" + fn.Name + " " + strings.Join(args, " ") + ")", Sort: pf[1]}
